@@ -11,6 +11,7 @@ import (
 	"path/filepath"
 	"regexp"
 	"sort"
+	"strings"
 
 	"github.com/reedom/convergen/pkg/builder"
 	"github.com/reedom/convergen/pkg/builder/model"
@@ -123,7 +124,28 @@ func NewParser(srcPath, dstPath string) (*Parser, error) {
 		}
 	}
 	sort.Strings(siblingOnly)
-	for _, path := range siblingOnly {
+
+	// The same goes for packages further down the import graph: the element type of a slice
+	// field of an imported struct ("[]time.Time" in a model that the setup file's package uses
+	// without importing "time" itself) is spelled out in the generated code as well.
+	deeper := make([]string, 0)
+	var walk func(pkg *packages.Package)
+	walk = func(pkg *packages.Package) {
+		for path, imp := range pkg.Imports {
+			if _, seen := pkgNames[path]; seen || strings.Contains(path, "internal/") {
+				continue
+			}
+			pkgNames[path] = imp.Name
+			deeper = append(deeper, path)
+			walk(imp)
+		}
+	}
+	for _, imp := range pkgs[0].Imports {
+		walk(imp)
+	}
+	sort.Strings(deeper)
+
+	for _, path := range append(siblingOnly, deeper...) {
 		name := pkgNames[path]
 		if _, taken := imports.LookupPath(name); taken {
 			// Another import already goes by this name: import the package under an alias
